@@ -26,6 +26,12 @@ func vhSomeDoc() *etree.Document {
 		// a caller-supplied document may be addressed anywhere: the binding endpoints come from the configuration
 		root.CreateAttr("Destination", vString("doc.Destination"))
 	}
+	if vFlag("doc.has-signature-child") {
+		// a caller-supplied document may already carry an enveloped signature: it is part of "the exact message"
+		sg := root.CreateElement("ds:Signature")
+		sg.CreateAttr("xmlns:ds", "http://www.w3.org/2000/09/xmldsig#")
+		sg.CreateElement("ds:SignatureValue").CreateText(vQueryString("doc.sigvalue"))
+	}
 	root.CreateText(vQueryString("doc.text"))
 	doc.SetRoot(root)
 	return doc
@@ -66,6 +72,7 @@ func vhC14(logout bool) {
 	endpoint := sp.IdentityProviderSSOURL
 	var out string
 	var err error
+	docBefore := vTreeSig(doc.Root())
 	switch {
 	case logout:
 		endpoint = sp.IdentityProviderSLOURL
@@ -77,6 +84,7 @@ func vhC14(logout bool) {
 		out, err = sp.BuildAuthURLFromDocument(relay, doc)
 	}
 	vDebugErr("build", err)
+	vAssert("C14,C17.the-supplied-document-is-not-modified", vTreeSig(doc.Root()) == docBefore)
 	if err != nil {
 		vReach("error", true)
 		vAssert("C14.error-implies-no-url", out == "")
